@@ -102,10 +102,21 @@ def memory_init(case, rabin):
 class Synth:
     """A game case solved, with initial conditions set (fresh automaton)."""
 
-    def __init__(self, case, qinit=None, ei=None, si=None):
+    def __init__(self, case, qinit=None, ei=None, si=None, reuse=False):
         self.case = case
         self.rabin = bool(case['rabin'])
         aut = fam.build_game(case)
+        if reuse and case['env']:
+            # history: the same automaton first solved with every variable
+            # owned by the component, then ownership edited IN PLACE
+            env_names = list(aut.varlist['env'])
+            for v in env_names:
+                aut.varlist['env'].remove(v)
+                aut.varlist['sys'].append(v)
+            solve(aut, self.rabin)
+            for v in env_names:
+                aut.varlist['sys'].remove(v)
+            aut.varlist['env'].extend(env_names)
         self.aut = aut
         self.gm = fam.GameModel(aut, case)
         self.P = [self.gm.state_table(u) for u in aut.win['<>[]']]
